@@ -56,6 +56,11 @@ def main(argv: List[str]) -> int:
             if wn in anon_sets:
                 d4 += 1
                 continue
+        if name.startswith("_") and isinstance(cls, type) and not live.attrs.has(cls) and not issubclass(cls, __import__("enum").Enum):
+            # a private helper class (a mixin carrying shared methods): not a protocol type, nothing of the metamodel corresponds to it
+            d4 += 1
+            run.notes.append(f"lsprotocol.types defines the private helper class {name} (no attrs class, no enumeration): not a protocol type")
+            continue
         run.violation(f"table:{name}:extra-class", f"lsprotocol.types defines class {name}, which corresponds to no metamodel declaration", {"class": name}, True)
     if n1 == 0:
         run.crash("no table obligation generated")
